@@ -23,3 +23,9 @@ def verdict(cond: bool) -> bool:
     if REACH:
         return False
     return bool(cond)
+
+# logging creates LogRecords with time.time(), which CrossHair models as a symbolic float: every logger.warning in
+# the code under test would add unbounded branching. Logging is not the subject of any property.
+import logging as _logging
+
+_logging.disable(_logging.CRITICAL)
